@@ -30,6 +30,7 @@ def check(ctx, R):
     _sign_cryptography(ctx, R, T)
     _sign_pythonrsa(ctx, R, T)
     _sign_pycryptodome(ctx, R, T)
+    _stateless(ctx, R)
     R.assume("cryptography / rsa / pycryptodome implement RSASSA-PKCS1-v1_5 as documented; adbd verifies RSA_verify(NID_sha1, token, 20, sig)")
     R.undecided("the arithmetic inside the crypto libraries is outside the analysed source")
 
@@ -39,9 +40,16 @@ def _blob(ctx, R, T):
     g = ctx.cfg(f)
     q = f.qualname
     rets = [n for n in g.live_nodes() if n.kind == "stmt" and isinstance(n.ast, ast.Return)]
-    if len(rets) != 1:
-        raise AnalysisError("BLOB", "encode_pubkey has %d returns" % len(rets))
-    rn = rets[0]
+    if not rets:
+        raise AnalysisError("BLOB", "encode_pubkey has no return")
+    packs = [n for n in rets if T.term(f, n, n.ast.value)[0] == "call" and T.term(f, n, n.ast.value)[1] == "struct.pack"]
+    for n in rets:
+        if n not in packs:
+            R.fail("BLOB", q + "|" + norm_stmt(n.ast)[:60], "encode_pubkey can return `%s`, which is not the structure packed from the key it was asked about (stale/cached/foreign blob)" % norm_stmt(n.ast)[:80], f.loc(n.ast))
+    if len(packs) != 1:
+        R.fail("BLOB", q + "|pack-sites", "expected exactly one return of struct.pack(...), found %d" % len(packs), f.loc())
+        return
+    rn = packs[0]
     t = T.term(f, rn, rn.ast.value)
     loc = f.loc(rn.ast)
     if not (t[0] == "call" and t[1] == "struct.pack" and len(t[2]) == 6):
@@ -242,3 +250,38 @@ def _sign_pycryptodome(ctx, R, T):
     else:
         R.fail("SIGN-pycryptodome", f.qualname + "|rehash", "the object signed is %s: the 20-byte token is hashed again (or with the wrong algorithm); adbd verifies the token itself as a SHA-1 digest, so the signature does not verify" % show(h)[:120], loc)
     _pub_from_file(ctx, R, T, cls, "SIGN-pycryptodome")
+
+
+def _stateless(ctx, R):
+    """Key material is computed from its inputs on every call: no module-level caches, no signer state that grows with use."""
+    for mn in ("auth.keygen", "auth.sign_cryptography", "auth.sign_pythonrsa", "auth.sign_pycryptodome"):
+        mod = ctx.pkg.mods.get(mn)
+        if mod is None:
+            continue
+        for name, exprs in sorted(mod.assigns.items()):
+            for e in exprs:
+                mutable = isinstance(e, (ast.Dict, ast.List, ast.Set, ast.ListComp, ast.DictComp, ast.SetComp)) or (
+                    isinstance(e, ast.Call) and isinstance(e.func, ast.Name) and e.func.id in ("dict", "list", "set", "defaultdict", "OrderedDict", "WeakValueDictionary"))
+                R.check(not mutable, "STATELESS", "%s.%s" % (mn, name), "module-level constant",
+                        "module-level mutable object `%s` in %s: a cache of key material can hand out a blob/signature that does not belong to the key asked about" % (name, mn), mod.relpath)
+        for f in mod.all_funcs:
+            for n in walk_own(f.node):
+                if isinstance(n, (ast.Global, ast.Nonlocal)):
+                    R.fail("STATELESS", "%s|global" % f.qualname, "`global` state in %s" % f.qualname, f.loc(n))
+        # signer objects: Sign() must not write instance state
+        for c in mod.classes.values():
+            sg = c.methods.get("Sign")
+            if sg is None:
+                continue
+            from ..util import attr_writes
+            from ..dataflow import MUTATING_METHODS
+            for k, st, kind in attr_writes(sg):
+                if k.startswith(sg.params[0] + "."):
+                    R.fail("STATELESS", "%s|%s" % (sg.qualname, norm_stmt(st)), "Sign() modifies the signer (`%s`): a second signature depends on the first" % norm_stmt(st), sg.loc(st))
+            for call in own_calls(sg):
+                if isinstance(call.func, ast.Attribute) and call.func.attr in MUTATING_METHODS | {"update"}:
+                    base = call.func.value
+                    kk = varkey(unawait(base))
+                    if kk and kk.startswith(sg.params[0] + "."):
+                        R.fail("STATELESS", "%s|%s" % (sg.qualname, norm_stmt(call)), "Sign() feeds the token into long-lived signer state (`%s`): the second signature covers both tokens" % norm_stmt(call), sg.loc(call))
+    R.ok("STATELESS", "auth", "no module-level caches, Sign() leaves the signer unchanged", "adb_shell/auth", trivial=True)
